@@ -659,6 +659,15 @@ class OsrmStub:
                 self._send(conn, "200 OK", json.dumps({"code": "Ok", "durations": [durs]}).encode())
             elif fault == "truncate":
                 self._send(conn, "200 OK", body, cut=len(body) // 2)
+            elif fault in ("streamcut_str", "streamcut_key"):
+                # a reply STREAMED without Content-Length (Connection: close) whose stream ends inside a string literal / inside
+                # an object key -- with the waypoint objects a real table service sends (hint strings, street names with quotes
+                # and backslashes): the client sees a complete HTTP reply whose body is not JSON, and the text of the parser's
+                # complaint quotes the router's bytes
+                way = {"hint": "w4sKgP___38AAAAAbQAAAAAAAAAKAAAA\\\"q1\"", "distance": 4.2, "name": "rue \"de l'\u00c9glise\" \\ n\u00b0 5", "location": [-73.0, 45.0]}
+                rich = json.dumps({"code": "Ok", "sources": [way], "destinations": [way] * 2, "durations": [durs], "distances": [dists]}).encode()
+                at = rich.index(b"w4sK") + 20 if fault == "streamcut_str" else rich.index(b'"destinations"') + 5
+                self._send(conn, "200 OK", rich, cut=at, no_length=True)
             else:
                 self._send(conn, "200 OK", body)
         except OSError:
@@ -669,9 +678,11 @@ class OsrmStub:
                 self._conns.discard(conn)
 
     @staticmethod
-    def _send(conn, status, body, cut=None):
+    def _send(conn, status, body, cut=None, no_length=False):
         head = ("HTTP/1.1 %s\r\nContent-Type: application/json; charset=UTF-8\r\nContent-Length: %d\r\nConnection: close\r\n\r\n"
                 % (status, len(body))).encode()
+        if no_length:
+            head = ("HTTP/1.1 %s\r\nContent-Type: application/json; charset=UTF-8\r\nConnection: close\r\n\r\n" % status).encode()
         conn.sendall(head + (body if cut is None else body[:cut]))
 
 
